@@ -143,8 +143,27 @@ def driver_case(rng):
     g = rng.choice(['fullfact', 'fullfact', 'lhs', 'uniform', 'pb', 'bb', 'list'])
     c = {'kind': 'driver', 'gen': g, 'levels': rng.choice([2, 3]), 'samples': rng.choice([2, 3, 5]),
          'criterion': rng.choice([None, 'center', 'maximin']), 'seed': rng.choice([0, 5, 11])}
+    vs = rnd_vars(rng)
+    c['vars'] = vs
+    total = sum(len(v['lo']) for v in vs)
+    if g == 'bb' and total < 3:
+        c['gen'] = 'fullfact'
+    if g == 'list':
+        cases = []
+        for _ in range(rng.randrange(0, 4)):
+            cs = []
+            for v in rng.sample(vs, rng.randrange(1, len(vs) + 1)):
+                val = [Q(Fraction(l[0], l[1]) + (Fraction(h[0], h[1]) - Fraction(l[0], l[1])) * Fraction(rng.randrange(0, 5), 4))
+                       for l, h in zip(v['lo'], v['hi'])]
+                cs.append([v['name'], val])
+            cases.append(cs)
+        c['cases'] = cases
+    return c
+
+
+def rnd_vars(rng, kmax=2):
     vs = []
-    for name in rng.sample(NAMES, rng.randrange(1, 3)):
+    for name in rng.sample(NAMES, rng.randrange(1, kmax + 1)):
         n = rng.choice([1, 2, 3])
         idx = None
         if n > 1 and rng.random() < 0.4:
@@ -172,20 +191,74 @@ def driver_case(rng):
         elif r < 0.45:
             v['adder'] = Q(rng.choice([1, -2, Fraction(1, 2)]))
         vs.append(v)
-    c['vars'] = vs
-    total = sum(len(v['lo']) for v in vs)
-    if g == 'bb' and total < 3:
-        c['gen'] = 'fullfact'
-    if g == 'list':
-        cases = []
-        for _ in range(rng.randrange(0, 4)):
-            cs = []
-            for v in rng.sample(vs, rng.randrange(1, len(vs) + 1)):
-                val = [Q(Fraction(l[0], l[1]) + (Fraction(h[0], h[1]) - Fraction(l[0], l[1])) * Fraction(rng.randrange(0, 5), 4))
-                       for l, h in zip(v['lo'], v['hi'])]
-                cs.append([v['name'], val])
-            cases.append(cs)
-        c['cases'] = cases
+    return vs
+
+
+def driver_reuse_case(rng):
+    """ONE generator object drives two or three Problems with different design-variable sets"""
+    g = rng.choice(['fullfact', 'fullfact', 'fullfact', 'pb', 'bb', 'lhs', 'uniform'])
+    c = {'kind': 'driver', 'gen': g, 'samples': rng.choice([2, 3, 5]),
+         'criterion': rng.choice([None, 'center', 'maximin']), 'seed': rng.choice([0, 5, 11])}
+    if rng.random() < 0.5:
+        c['levels'] = rng.choice([2, 2, 3])
+    else:
+        c['levels'] = {n: rng.choice([1, 2, 3]) for n in rng.sample(NAMES, rng.randrange(1, 4))}
+        c['levels']['default'] = 2
+    sets = [rnd_vars(rng, 3) for _ in range(rng.choice([2, 2, 3]))]
+    for vs in sets:
+        total = sum(len(v['lo']) for v in vs)
+        if g == 'bb' and total < 3:
+            c['gen'] = 'fullfact'
+    if c['gen'] == 'fullfact':
+        for vs in sets:
+            prod = 1
+            for v in vs:
+                prod *= dv_levels(c, v['name']) ** len(v['lo'])
+            if prod > 200:
+                c['levels'] = 2
+    c['vars'], c['more_vars'] = sets[0], sets[1:]
+    return c
+
+
+def reuse_case(rng):
+    """ONE generator object (drivers.doe_generators) called for two or three different design-variable sets:
+    other variables, other counts, other sizes, the same total size split differently under dict levels"""
+    g = rng.choice(['fullfact', 'fullfact', 'fullfact', 'gsd', 'pb', 'bb', 'lhs', 'uniform'])
+    c = {'kind': 'reuse', 'api': 'doe', 'gen': g}
+    if g == 'fullfact':
+        if rng.random() < 0.4:
+            c['levels'] = rng.choice([1, 2, 3, 4])
+        else:
+            c['levels'] = {n: rng.choice([1, 2, 3, 4]) for n in rng.sample(NAMES, rng.randrange(1, 5))}
+            if rng.random() < 0.6:
+                c['levels']['default'] = rng.choice([2, 3])
+    elif g == 'gsd':
+        c['levels'] = rng.choice([2, 3]) if rng.random() < 0.5 else {n: rng.choice([2, 3, 4]) for n in NAMES}
+        c['reduction'], c['n'] = rng.choice([2, 2, 3]), 1
+    elif g == 'pb':
+        c['levels'] = 2
+    elif g == 'bb':
+        c['levels'], c['center'] = 3, rng.choice([None, 1])
+    else:
+        c.update({'samples': rng.choice([1, 2, 3, 5, 8]), 'criterion': rng.choice([None, 'center', 'c']),
+                  'iterations': 5, 'seed': rng.choice([None, 0, 7, 42]), 'levels': 2})
+    need = {'gsd': 2, 'bb': 3}.get(g, 1)
+    steps = []
+    for _ in range(rng.choice([2, 2, 3])):
+        dvs = rnd_dvs(rng, lambda n: dv_levels(c, n), nmax=3, total_max=4)
+        while sum(len(d['lo']) for d in dvs) < need:
+            dvs = rnd_dvs(rng, lambda n: dv_levels(c, n), nmax=4, total_max=4)
+        steps.append(dvs)
+    if rng.random() < 0.3 and len(steps[0]) >= 2:
+        # the same total size, split differently between the same two variables
+        a, b = steps[0][0], steps[0][1]
+        if len(a['lo']) != len(b['lo']) and dv_levels(c, a['name']) != dv_levels(c, b['name']):
+            def resized(d, n):
+                L = dv_levels(c, d['name'])
+                lo0 = Fraction(d['lo'][0][0], d['lo'][0][1])
+                return dict(d, lo=[Q(lo0)] * n, hi=[Q(lo0 + max(L - 1, 1))] * n)
+            steps[1] = [resized(a, len(b['lo'])), resized(b, len(a['lo']))] + steps[0][2:]
+    c['steps'] = steps
     return c
 
 
@@ -202,7 +275,10 @@ class C23(Spec):
     rule = ('random design-variable sets (1-4 variables, sizes 1-3, scalar or array bounds, degenerate ranges) x '
             '{full factorial (int / dict / default levels), generalized subset, Plackett-Burman, Box-Behnken} x both APIs '
             '(drivers.doe_generators, drivers.sampling); Latin hypercube x samples x criterion x seed (exact and general '
-            'bounds); uniform; DOEDriver runs with indices, units and scaling on a recording component')
+            'bounds); uniform; DOEDriver runs with indices, units and scaling on a recording component; HISTORIES: one generator '
+            'object called for 2-3 different design-variable sets (other variables / counts / sizes, same total size split '
+            'differently under dict levels) and one generator object driving 2-3 Problems - every call is compared with the '
+            'model applied to that call\'s design variables alone and with a fresh generator')
     assumptions = ['pyDOE designs (gsd, pbdesign, bbdesign, lhs) are external: their index / unit matrices are captured '
                    'from the run and checked (bounds, stratification), not trusted',
                    'NumPy PRNG reproducibility is checked, not proved: for every seeded generator (uniform, Latin hypercube, both APIs) the '
@@ -229,6 +305,10 @@ class C23(Spec):
             cases.append(uniform_case(rng))
         for _ in range(110 * k):
             cases.append(driver_case(rng))
+        for _ in range(150 * k):
+            cases.append(reuse_case(rng))
+        for _ in range(40 * k):
+            cases.append(driver_reuse_case(rng))
         return cases
 
     def search_gen(self, tier, rng):
@@ -237,10 +317,25 @@ class C23(Spec):
     def compare_case(self, c, res):
         if res.get('res', '__none__') == '__none__':
             return False
+        if c['kind'] == 'reuse':
+            c['_designs'] = [st[0] for st in res['res']]
+            return True
         c['_res0'] = res['res'][0]           # the captured design / unit matrix: input of the model term
         return True
 
     def got_term(self, c):
+        if c['kind'] == 'reuse':
+            # every call of the shared generator object: the model applied to THAT call's design variables alone
+            terms = []
+            for dvs, design in zip(c['steps'], c['_designs']):
+                sub = dict(c, dvs=dvs)
+                fs = factors_term(sub)
+                dt = '[%s]' % '; '.join('[%s]' % '; '.join('%d%%nat' % i for i in row) for row in design)
+                if c['gen'] == 'fullfact':
+                    terms.append('(VL [v_fullfact %s; v_cases %s %s])' % (fs, fs, dt))
+                else:
+                    terms.append('(v_cases %s %s)' % (fs, dt))
+            return '(VL [%s])' % '; '.join(terms)
         if c['kind'] == 'levels':
             fs = factors_term(c)
             design = '[%s]' % '; '.join('[%s]' % '; '.join('%d%%nat' % i for i in row) for row in c['_res0'])
@@ -258,6 +353,12 @@ class C23(Spec):
         raise ValueError(c['kind'])
 
     def want_term(self, c, res):
+        if c['kind'] == 'reuse':
+            ws = []
+            for design, cases in res['res']:
+                cs = core.to_val(cases)
+                ws.append('(VL [VL [%s; %s]; %s])' % (core.to_val(design), cs, cs) if c['gen'] == 'fullfact' else cs)
+            return '(VL [%s])' % '; '.join(ws)
         design, cases = res['res']
         if c['kind'] == 'levels':
             cs = core.to_val(cases)
@@ -267,6 +368,9 @@ class C23(Spec):
         return '(VL [VB true; %s])' % core.to_val(cases)
 
     def shrink(self, c):
+        if 'steps' in c and len(c['steps']) > 2:
+            for i in range(len(c['steps'])):
+                yield dict(c, steps=c['steps'][:i] + c['steps'][i + 1:])
         if 'dvs' in c and len(c['dvs']) > 1:
             for i in range(len(c['dvs'])):
                 yield dict(c, dvs=c['dvs'][:i] + c['dvs'][i + 1:])
